@@ -204,52 +204,63 @@ def describe(hist):
     return [{k: (v if k != "feats" else [G.gff3_line(f) for f in v]) for k, v in s.items() if k != "files"} for s in hist]
 
 
-def random_reads(ctx, n_db, n_reads):
-    """D2: random read sequences on databases built from the repository's data files"""
+D2_SRCS = ["FBgn0031208.gff", "FBgn0031208.gtf", "gff_example1.gff3", "issue_197.gff", "synthetic.gff3", "intro_docs_example.gff", "hybrid1.gff3", "ensembl_gtf.txt"]
+
+
+def one_random_db(ctx, src, pre_merge, case_seed, n_reads, path):
+    """one data-file database, optionally a writer (merge_all) first, then a seeded random sequence of read-style calls;
+    returns (clause or None, the sequence, statements traced, bytes-only note)"""
     import gffutils
-    import shutil
+    import random
+    rng = random.Random(case_seed)
     data = os.path.join(core.REPO, "gffutils", "test", "data")
-    srcs = ["FBgn0031208.gff", "FBgn0031208.gtf", "gff_example1.gff3", "issue_197.gff", "synthetic.gff3", "intro_docs_example.gff", "hybrid1.gff3", "ensembl_gtf.txt"]
-    for k in range(n_db):
-        src = srcs[k % len(srcs)]
-        path = ctx.path("d2_%d.db" % k)
+    try:
+        with dbio.quiet():
+            db = gffutils.create_db(os.path.join(data, src), path, merge_strategy="create_unique", keep_order=True, force=True)
+    except Exception:  # noqa
+        return None, [], [], False
+    db.conn.close()
+    db = gffutils.FeatureDB(path)
+    if pre_merge:           # a WRITER ran on this handle before the reads (whatever it did is part of the "before" state)
         try:
             with dbio.quiet():
-                db = gffutils.create_db(os.path.join(data, src), path, merge_strategy="create_unique", keep_order=True)
-        except Exception as e:  # noqa
-            continue
-        db.conn.close()
-        db = gffutils.FeatureDB(path)
-        if k % 2 == 1:          # a WRITER ran on this handle before the reads (whatever it did is part of the "before" state)
-            try:
-                with dbio.quiet():
-                    db.merge_all(exclude_components=False)
-                db.conn.commit()
-            except Exception:  # noqa
-                db.conn.rollback()
-        before = (G.canon_snap(dbio.proj_file(path)), sha(path))
-        seq = [ctx.rng.choice(READ_KINDS) for _ in range(n_reads)]
-        stmts = []
-        db.conn.set_trace_callback(stmts.append)
-        with dbio.quiet():
-            for kind in seq:
-                do_read(db, kind, ctx.rng)
-        db.conn.set_trace_callback(None)
-        bad = None
-        w = writes_of(stmts)
-        if w:
-            bad = "read_issued:" + w[0].strip().split(None, 1)[0].upper()
-        db.conn.close()
-        after = (G.canon_snap(dbio.proj_file(path)), sha(path))
-        if not bad and before[0] != after[0]:
-            bad = "logical_content_changed"
-        if not bad and before[1] != after[1]:
+                db.merge_all(exclude_components=False)
+            db.conn.commit()
+        except Exception:  # noqa
+            db.conn.rollback()
+    before = (G.canon_snap(dbio.proj_file(path)), sha(path))
+    seq = [rng.choice(READ_KINDS) for _ in range(n_reads)]
+    stmts = []
+    db.conn.set_trace_callback(stmts.append)
+    with dbio.quiet():
+        for kind in seq:
+            do_read(db, kind, rng)
+    db.conn.set_trace_callback(None)
+    bad = None
+    w = writes_of(stmts)
+    if w:
+        bad = "read_issued:" + w[0].strip().split(None, 1)[0].upper()
+    db.conn.close()
+    after = (G.canon_snap(dbio.proj_file(path)), sha(path))
+    if not bad and before[0] != after[0]:
+        bad = "logical_content_changed"
+    note = (not bad) and before[1] != after[1]
+    os.unlink(path)
+    return bad, seq, stmts, note
+
+
+def random_reads(ctx, n_db, n_reads):
+    """D2: random read sequences on databases built from the repository's data files"""
+    for k in range(n_db):
+        src = D2_SRCS[k % len(D2_SRCS)]
+        case_seed = ctx.rng.randrange(2 ** 30)
+        bad, seq, stmts, note = one_random_db(ctx, src, k % 2 == 1, case_seed, n_reads, ctx.path("d2_%d.db" % k))
+        if note:
             ctx.extra["notes_bytes_changed_content_same"] = ctx.extra.get("notes_bytes_changed_content_same", 0) + 1
         if bad:
-            ctx.violation({"data_file": src, "reads": seq}, bad, {"first_statements": [s[:120] for s in stmts[:5]]})
+            ctx.violation({"data_file": src, "reads": seq, "pre_merge_all": k % 2 == 1, "case_seed": case_seed, "n_reads": n_reads}, bad, {"first_statements": [s[:120] for s in stmts[:5]]})
         ctx.count(("d2", src, seq), len(set(seq)) >= 2)
         ctx.extra["statements_traced"] = ctx.extra.get("statements_traced", 0) + len(stmts)
-        os.unlink(path)
     ctx.traces += n_db
 
 
@@ -324,6 +335,9 @@ def run(ctx):
 
 
 def replay(ctx, rec):
+    c = rec["case"]
+    if "case_seed" in c:
+        return one_random_db(ctx, c["data_file"], c["pre_merge_all"], c["case_seed"], c["n_reads"], ctx.path("d2_replay.db"))[0] is not None
     raw = rec["case"].get("raw")
     if not raw:
         raise core.CannotReplay("no executable case in this replay file")
